@@ -72,8 +72,7 @@ class Ref:
     def __init__(self, subj, m):
         self.subj = subj
         self.training = True
-        sd = {k: v.numpy().copy() for k, v in m.state_dict().items()}
-        self.sd = sd
+        self.sd = sd_np(m)
         self.initialized = False  # model state of ActNorm (tracked by the automaton itself, not read from the layer)
 
     def step(self, op, B):
@@ -141,7 +140,10 @@ def close(a, b, tol=1e-10):
 
 
 def sd_np(m):
-    return {k: v.detach().numpy().copy() for k, v in m.state_dict().items()}
+    """every parameter and buffer of the layer (also non-persistent ones: the layer's state, whether or not it is saved)"""
+    d = {k: v.detach().numpy().copy() for k, v in m.named_parameters()}
+    d.update({k: v.detach().numpy().copy() for k, v in m.named_buffers()})
+    return d
 
 
 def run_history(subj, hist):
